@@ -892,9 +892,12 @@ class Emitter:
             for pi, tn in tmps: st.append('v_%s = %s;' % (cid(pi.res), tn))
             return '{ %s goto %s; }' % (' '.join(st), L(to))
         s.typed_new = {}; s.inttoptr_src = {}
+        s.load_of = {}; s.gep_of = {}      # for --vdispatch: %fp = load (gep (load vptr), K)
         for lab, inss in blocks:
             for ins in inss:
                 if ins.op == 'cast' and ins.cop == 'inttoptr' and ins.res: s.inttoptr_src[ins.res] = ins.a
+                if ins.op == 'load' and ins.res: s.load_of[ins.res] = ins.a
+                if ins.op == 'gep' and ins.res: s.gep_of[ins.res] = ins.ops
         s.phi_memptr = set()
         for lab, inss in blocks:
             for ins in inss:
@@ -1081,7 +1084,7 @@ class Emitter:
                 call = '__vf_%s_%d(%s)' % (name.replace('.', '_'), 0, ', '.join(A)); s.warn.append('intrinsic ' + name)
             else:
                 s.warn.append('unknown intrinsic ' + name); call = '__vf_%s(%s)' % (name.replace('.', '_'), ', '.join(A))
-        elif c.kind == 'global' and c.name in ('@_Znwm', '@__cxa_allocate_exception') and ins.res in s.typed_new and args[0].kind == 'num':   # exception objects too: a typed object keeps the vptr load of e.what() constant
+        elif c.kind == 'global' and c.name in ('@_Znwm', '@__cxa_allocate_exception') and c.name not in s.stubs and ins.res in s.typed_new and args[0].kind == 'num':   # exception objects too: a typed object keeps the vptr load of e.what() constant
             ty = s.typed_new[ins.res]
             call = '(uint8_t*)__vf_typed_new(malloc(sizeof(%s)), %s, sizeof(%s))' % (s.ctype(ty), A[0], s.ctype(ty))
         elif c.kind == 'global':
@@ -1125,6 +1128,27 @@ class Emitter:
             else: parts.append('{ __CPROVER_assert(0, "member-function pointer is virtual or outside the address-taken set (harness uses non-virtual callbacks only)"); __CPROVER_assume(0); }')
             body.append(' else '.join(parts))
             return
+        elif c.kind == 'local' and getattr(s, 'vdispatch', False) and s.vslot_of(c.name) is not None and s.vcands(s.vslot_of(c.name), ins, args):
+            # opt-in (--vdispatch): virtual call through vtable slot K -> explicit dispatch over the functions that occupy slot K in the vtables
+            # defined in this module (CBMC's own function-pointer removal fans out over every signature-compatible function whenever the vptr
+            # is not a constant, e.g. for an object pointer merged over several paths); any other target is reported, never ignored
+            K = s.vslot_of(c.name); src = '(uint64_t)' + s.expr(c)
+            has_ret = r is not None and not isinstance(ins.ret, VoidTy)
+            if has_ret: decls[r] = s.ctype(ins.ret)
+            parts = []
+            for fn in s.vcands(K, ins, args):
+                f2 = s.m.fns[fn]
+                if fn in s.stubs:
+                    AA = [('(void*)' + s.expr(a)) if isinstance(s.resolve(a.ty), PtrTy) else s.expr(a) for a in args]
+                else:
+                    AA = [('(%s)%s' % (s.ctype(f2.params[i][0]), a)) if isinstance(s.resolve(f2.params[i][0]), PtrTy) else a for i, a in enumerate(A)]
+                cl = '%s(%s)' % (s.fname(fn), ', '.join(AA))
+                if has_ret and isinstance(s.resolve(ins.ret), PtrTy): cl = '(%s)%s' % (s.ctype(ins.ret), cl)
+                parts.append('if (%s == (uint64_t)&%s) { %s%s; }' % (src, s.fname(fn), (r + ' = ') if has_ret else '', cl))
+                s.called.add(fn); s.memptr_called.add(fn)
+            parts.append('{ __CPROVER_assert(0, "virtual call (vtable slot %d): target outside the vtables defined in this translation"); __CPROVER_assume(0); }' % K)
+            body.append(' else '.join(parts))
+            return
         else:
             # indirect
             ft = ins.fnty or FnTy(ins.ret, [a.ty for a in args], False)
@@ -1133,6 +1157,49 @@ class Emitter:
             decls[r] = s.ctype(ins.ret); body.append('%s = %s;' % (r, call))
         else:
             body.append('%s;' % call)
+
+    # ------- vtable-slot-aware dispatch (--vdispatch)
+    def vslot_of(s, fp):
+        """slot index K if local %fp is `load (gep (load objptr), K)` / `load (load objptr)`, else None"""
+        a = s.load_of.get(fp)
+        if a is None or a.kind != 'local': return None
+        if a.name in s.gep_of:
+            ops = s.gep_of[a.name]
+            if len(ops) != 2 or ops[0].kind != 'local' or ops[1].kind != 'num': return None
+            vt, K = ops[0].name, int(ops[1].text)
+        else: vt, K = a.name, 0
+        if vt not in s.load_of or K < 0: return None
+        return K
+    def vtable_slots(s):
+        if getattr(s, '_vslots', None) is None:
+            s._vslots = {}
+            def fn_of(v):
+                while v is not None and v.kind in ('ccast',): v = v.a
+                return v.name if v is not None and v.kind == 'global' and v.name in s.m.fns else None
+            def arrays(v):
+                if v is None: return
+                if v.kind == 'carr': yield v
+                for e in getattr(v, 'els', []) or []:
+                    if e.kind in ('carr', 'cstruct'): yield from arrays(e)
+            for g, gd in s.m.globals.items():
+                if not g.lstrip('@').strip('"').startswith('_ZTV') or gd.get('init') is None: continue
+                for arr in arrays(gd['init']):
+                    for i, e in enumerate(arr.els):
+                        fn = fn_of(e)
+                        if fn and i >= 2: s._vslots.setdefault(i - 2, []).append(fn)
+        return s._vslots
+    def vcands(s, K, ins, args):
+        out = []
+        def shape(t):
+            rt = s.resolve(t)
+            return 'p' if isinstance(rt, PtrTy) else ('v' if isinstance(rt, VoidTy) else s.ctype(t))
+        for fn in s.vtable_slots().get(K, []):
+            f2 = s.m.fns[fn]
+            if fn in out or len(f2.params) != len(args) or f2.vararg: continue
+            if shape(f2.ret) != shape(ins.ret): continue
+            if any(shape(f2.params[i][0]) != shape(a.ty) for i, a in enumerate(args)): continue
+            out.append(fn)
+        return out
 
     # ------- whole module
     def emit(s, roots):
@@ -1264,6 +1331,7 @@ def main():
     ap.add_argument('--provided', action='append', default=[], help='external symbol defined by the harness (no trap stub)')
     ap.add_argument('--loopcut', action='append', default=[], help='fn:hook:var1,var2,... (needs -g IR)')
     ap.add_argument('--rpo', action='store_true', help='emit basic blocks in reverse post-order (fewer spurious backward gotos)')
+    ap.add_argument('--vdispatch', action='store_true', help='dispatch virtual calls explicitly over the functions in the same vtable slot of this module')
     a = ap.parse_args()
     m = parse_module(open(a.ll).read())
     stubs = {}
@@ -1281,7 +1349,7 @@ def main():
                     if rx.search(fn[1:]): stubs[fn] = v
             else: stubs['@' + k] = v
     e = Emitter(m, stubs); e.prefix = a.prefix
-    e.rpo = a.rpo
+    e.rpo = a.rpo; e.vdispatch = a.vdispatch
     e.loopcuts = {}
     for lc in a.loopcut:
         fn, hook, vs = lc.split(':'); e.loopcuts.setdefault(fn, []).append(dict(hook=hook, vars=vs.split(',')))
